@@ -400,7 +400,7 @@ def run_probe(depth, deep=0):
             return d["n"], d["mism"]
         except Exception:
             pass
-    if deep > 0:
+    if deep > 0 or depth >= 3:
         # the large enumeration is produced by several harness processes, each a residue class of the state list
         from concurrent.futures import ThreadPoolExecutor
         with ThreadPoolExecutor(max_workers=NPROC) as ex:
@@ -524,7 +524,7 @@ PROPS = {
 
 TIERS = {
     "quick": dict(oracle=dict(default=1500, small=1500, mid=60, memo=6, big=6), trace=dict(default=400, small=600, memo=3),
-                  probe_depth=2, probe_deep=0, gen=dict(default=1200, small=800), gen_exhaustive=1, mut=4000, src=1500,
+                  probe_depth=3, probe_deep=0, gen=dict(default=1200, small=800), gen_exhaustive=1, mut=4000, src=1500,
                   src_exhaustive2=False, hist=6000, hist_len=4),
     "thorough": dict(oracle=dict(default=30000, small=30000, mid=1500, memo=120, big=24, large=2),
                      trace=dict(default=8000, small=8000, memo=40),
